@@ -32,6 +32,19 @@ pub enum Plan {
     Count,
     /// FaultReader failing `len` operations starting at operation `k`
     FailAt(u64, u64),
+    /// RelocateReader with the identity relocation over the borrowed reader
+    Reloc,
+}
+
+#[derive(Debug, Clone, Copy)]
+struct Ident;
+impl gimli::Relocate<usize> for Ident {
+    fn relocate_address(&self, _offset: usize, value: u64) -> gimli::Result<u64> {
+        Ok(value)
+    }
+    fn relocate_offset(&self, _offset: usize, value: usize) -> gimli::Result<usize> {
+        Ok(value)
+    }
 }
 
 fn endian(big: bool) -> RunTimeEndian {
@@ -134,6 +147,10 @@ pub fn run_case(ctx: &mut Ctx, label: &dyn Fn() -> String, ss: &SecSet, primary:
         Plan::Slice => guard(|| {
             // SAFETY-free lifetime trick: readers borrow `ss`, which outlives this call.
             let mk = |b: &[u8]| -> EndianSlice<'_, RunTimeEndian> { EndianSlice::new(unsafe { std::slice::from_raw_parts(b.as_ptr(), b.len()) }, e) };
+            dispatch(&mut p, &mk, ss, primary, cfg, choice)
+        }),
+        Plan::Reloc => guard(|| {
+            let mk = |b: &[u8]| -> gimli::RelocateReader<EndianSlice<'_, RunTimeEndian>, Ident> { gimli::RelocateReader::new(EndianSlice::new(unsafe { std::slice::from_raw_parts(b.as_ptr(), b.len()) }, e), Ident) };
             dispatch(&mut p, &mk, ss, primary, cfg, choice)
         }),
         Plan::Count | Plan::FailAt(..) => {
@@ -267,9 +284,9 @@ fn add_seed_subs(subs: &mut Vec<Sub>, sz: Sz) {
         let g_all = gs(true);
         let ng = g_all.len() as u64;
         subs.push(
-            Sub::new(&sz.tag("seeds"), ns * ng * 2, "every well-formed seed x {LE,BE} x {32,64-bit} x address size {4,8} x {borrowed reader, counting FaultReader}", move |ctx, i| {
+            Sub::new(&sz.tag("seeds"), ns * ng * 3, "every well-formed seed x {LE,BE} x {32,64-bit} x address size {4,8} x {borrowed reader, counting FaultReader, identity RelocateReader}", move |ctx, i| {
                 let mut m = Mix(i);
-                let plan = if m.flag() { Plan::Count } else { Plan::Slice };
+                let plan = [Plan::Slice, Plan::Count, Plan::Reloc][m.take(3) as usize];
                 let g = *m.pick(&g_all);
                 let s = &seeds::seeds()[m.take(ns) as usize];
                 let ss = (s.gen)(g);
@@ -379,7 +396,7 @@ fn add_seed_subs(subs: &mut Vec<Sub>, sz: Sz) {
         }
         let g_set2 = g_set.clone();
         subs.push(
-            Sub::new(&sz.tag("truncate"), total, "every seed x config with its primary section cut to its first n bytes, every n in 0..len", move |ctx, i| {
+            Sub::new(&sz.tag("truncate"), total, "every seed x config with its primary section cut to its first n bytes, every n in 0..len, read through the borrowed reader and through the identity RelocateReader", move |ctx, i| {
                 let pos = offs.partition_point(|o| o.2 <= i) - 1;
                 let (si, gi, start, _) = offs[pos];
                 let n = (i - start) as usize;
@@ -392,6 +409,7 @@ fn add_seed_subs(subs: &mut Vec<Sub>, sz: Sz) {
                     ctx.sample(format!("seed {} {:?} truncated to {} bytes", name, g, n));
                 }
                 run_case(ctx, &|| format!("seed {} {:?} truncated to {}", name, g, n), &ss, s.primary, cfgs_of(g), Plan::Slice, 0);
+                run_case(ctx, &|| format!("seed {} {:?} truncated to {} (RelocateReader)", name, g, n), &ss, s.primary, cfgs_of(g), Plan::Reloc, 0);
             })
             .flavours(sz.fl()),
         );
